@@ -247,5 +247,5 @@ def run_tlc_mc(module, cfg, workdir, workers=8, timeout=3000, extra=None, simula
         raise ToolError("TLC model checking of %s/%s failed:\n%s" % (module, cfg, res["stdout_tail"]))
     log("[tlc] MC %s/%s: %s states, %s transitions, depth %s, %.1fs%s" % (
         module, cfg, res.get("states"), res.get("transitions"), res["depth"], res["wall_s"],
-        " VIOLATED " + res["violated"] if res["violated"] else ""))
+        " -- TLC reports: " + res["violated"] if res["violated"] else ""))
     return res
